@@ -20,7 +20,7 @@ def build(ctx, alt=False):
     import subprocess
     for i, f in enumerate(FILES):
         o = os.path.join(ctx.work, "str%s%d.o" % ("_alt" if alt else "", i))
-        cmd = ["gcc", "-std=gnu11", "-g"] + core.opt_flags(alt) + ["-fsanitize=address", "-fno-omit-frame-pointer", "-w", "-fno-builtin", "-D_GNU_SOURCE", "-Werror=implicit-function-declaration", "-I" + R,
+        cmd = ["gcc", "-std=gnu11", "-g"] + core.opt_flags(alt) + core.cov_flags() + ["-fsanitize=address", "-fno-omit-frame-pointer", "-w", "-fno-builtin", "-D_GNU_SOURCE", "-Werror=implicit-function-declaration", "-I" + R,
                "-include", os.path.join(core.HARNESS, "rename_string.h"), "-c", os.path.join(R, "compat/libc/string", f + ".c"), "-o", o]
         procs.append((cmd, subprocess.Popen(cmd, stdout=subprocess.PIPE, stderr=subprocess.STDOUT)))
         objs.append(o)
